@@ -21,3 +21,71 @@ Example C17_list_example :
   observe nat (lstep nat 0) (create nat 0 2) [Push 1; Push 2; Shift; Push 3; Push 4; Get 0; Get 2; Pop; Size]
   = [RSize 2; RVal (Some 4); RVal (Some 4); RVal (Some 2); ROk; ROk; RVal (Some 1); ROk; ROk].
 Proof. vm_compute. reflexivity. Qed.
+
+(* ---- the table is an insertion-ordered multimap; lookups are case-insensitive, first match ---- *)
+Require Import Htp.Model.MBstr Htp.Model.MTable Htp.Proof.PBstr Htp.Proof.PTable.
+
+Theorem C17_table_refines_multimap :
+  forall ops, forallb valid_op ops = true -> tobserve tstep tcreate ops = tobserve mstep (mkmm 0 []) ops.
+Proof. exact table_refines_multimap. Qed.
+Print Assumptions C17_table_refines_multimap.
+
+Example C17_table_example :
+  tobserve tstep tcreate [TAdd 1 [72; 111]%N 5; TAdd 1 [104; 79]%N 6; TGet [72; 79]%N; TGetC [104; 111]%N; TAdd 2 [65]%N 7; TGetIndex 1; TSize]
+  = [TSz 2; TKeyVal (Some [104; 79]%N) (Some 6); TError; TVal (Some 5); TVal (Some 5); TOk; TOk].
+Proof. vm_compute. reflexivity. Qed.
+
+(* ---- byte-string primitives ---- *)
+Local Open Scope Z_scope.
+Theorem C17_cmp_mem_eq : forall a b, cmp_mem a b = 0 <-> a = b.
+Proof. exact cmp_mem_eq. Qed.
+Theorem C17_cmp_mem_lt : forall a b, cmp_mem a b = -1 <-> lex_lt a b.
+Proof. exact cmp_mem_lt. Qed.
+Theorem C17_cmp_mem_range : forall a b, cmp_mem a b = 0 \/ cmp_mem a b = -1 \/ cmp_mem a b = 1.
+Proof. exact cmp_mem_range. Qed.
+Theorem C17_cmp_mem_antisym : forall a b, cmp_mem b a = - cmp_mem a b.
+Proof. exact cmp_mem_antisym. Qed.
+Theorem C17_cmp_nocase : forall a b, cmp_mem_nocase a b = cmp_mem (map c_tolower a) (map c_tolower b).
+Proof. exact cmp_mem_nocase_spec. Qed.
+Theorem C17_cmp_nocasenorzero : forall a b, cmp_mem_nocasenorzero a b = cmp_mem_nocase (PBstr.nonzero a) b.
+Proof. exact cmp_mem_nocasenorzero_spec. Qed.
+Theorem C17_index_of_mem : forall h n,
+  (index_of_mem h n = -1 /\ forall j, (j < length h)%nat -> ~ is_prefix n (skipn j h)) \/
+  (exists i, (i < length h)%nat /\ index_of_mem h n = Z.of_nat i /\ is_prefix n (skipn i h) /\
+             forall j, (j < i)%nat -> ~ is_prefix n (skipn j h)).
+Proof. exact index_of_mem_spec. Qed.
+Theorem C17_begins_with : forall h n, begins_with_mem h n = true <-> is_prefix n h.
+Proof. exact begins_with_mem_spec. Qed.
+Theorem C17_begins_with_nocase : forall h n,
+  begins_with_mem_nocase h n = begins_with_mem (map c_tolower h) (map c_tolower n).
+Proof. exact begins_with_mem_nocase_spec. Qed.
+Theorem C17_chr : forall s c,
+  (bstr_chr s c = -1 /\ ~ In c s) \/
+  (exists i, bstr_chr s c = Z.of_nat i /\ nth_error s i = Some c /\ ~ In c (firstn i s)).
+Proof. exact bstr_chr_spec. Qed.
+Theorem C17_trim : forall s,
+  exists l r, s = l ++ mem_trim s ++ r /\ forallb c_isspace l = true /\ forallb c_isspace r = true /\
+    match mem_trim s with [] => True | x :: _ => c_isspace x = false end /\
+    match rev (mem_trim s) with [] => True | x :: _ => c_isspace x = false end.
+Proof. exact mem_trim_spec. Qed.
+Theorem C17_add_noex : forall size d src, (length d <= size)%nat ->
+  add_mem_noex size d src = d ++ firstn (size - length d) src /\ (length (add_mem_noex size d src) <= size)%nat.
+Proof. exact add_mem_noex_spec. Qed.
+
+(* ---- numbers: the mathematical value, or an error code; never a wrapped value ---- *)
+Theorem C17_to_pint : forall s base, 2 <= base <= 36 -> s <> [] ->
+  fst (mem_to_pint s base) =
+    match digits base s with
+    | [] => -1
+    | ds => if value base ds <=? 2 ^ 63 - 1 then value base ds else -2
+    end.
+Proof. exact to_pint_spec. Qed.
+Print Assumptions C17_to_pint.
+Theorem C17_status_range : forall s, parse_status s = c_HTP_STATUS_INVALID \/ 100 <= parse_status s <= 999.
+Proof. exact parse_status_range. Qed.
+Theorem C17_chunk_length_range : forall s, fst (parse_chunked_length s) <= 2 ^ 31 - 1.
+Proof. exact parse_chunked_length_range. Qed.
+Example C17_to_pint_example :
+  fst (mem_to_pint [57;50;50;51;51;55;50;48;51;54;56;53;52;55;55;53;56;48;55]%N 10) = 2 ^ 63 - 1 /\
+  fst (mem_to_pint [57;50;50;51;51;55;50;48;51;54;56;53;52;55;55;53;56;48;56]%N 10) = -2.
+Proof. split; vm_compute; reflexivity. Qed.
